@@ -212,8 +212,18 @@ def check_pda(acc, spec, L, depth, stack=('x', 'y'), only=None):
         GambaTools.pda_epsilon_closure_max_iterations = old
 
 
-def check_cfg(acc, g, L, only=None):
+def check_cfg(acc, g, L, only=None, siblings=True):
     from gambatools.cfg_algorithms import cfg_derive_word
+    if siblings and only is None:
+        # the same rule list with another start variable (legal CNF when that variable is on no right-hand side),
+        # derived right after the original in the same process
+        for X in ('A', 'B'):
+            if any(l == X for l, _ in g[3]) and not any(X in rhs for _, rhs in g[3]) and not any(l == X and not rhs for l, rhs in g[3]):
+                g2 = ('cfg', g[1], g[2], tuple((l, r) for l, r in g[3] if not (l == 'S' and not r)), X)
+                if cfg.is_cnf(g2) is None:
+                    check_cfg(acc, g, L, siblings=False)
+                    check_cfg(acc, g2, L, siblings=False)
+                    return
     lang, _ = cfg.language(g, L)
     G = cfg.to_lib(g)
     acc.c['cnf_grammars'] += 1
@@ -294,7 +304,7 @@ def t_space(acc, kind, space, L, depth, shard, nshard, stride=1, offset=0, opt=N
     if kind == 'dfa':
         gen = spaces.dfas(*space)
     elif kind == 'nfa':
-        gen = eps_heavy(*space[1:]) if space[0] == 'epsheavy' else (spaces.nfa_chains(space[1]) if space[0] == 'chain' else spaces.nfas(*space))
+        gen = eps_heavy(*space[1:]) if space[0] == 'epsheavy' else (spaces.nfa_chains(space[1]) if space[0] == 'chain' else (spaces.nfas(4, 1, space[1], q0s=[0], fbits=[1, 2, 4, 8], tmin=space[1]) if space[0] == 'nfa4' else spaces.nfas(*space)))
     elif kind == 'pda':
         gen = push_family() if space[0] == 'pushfamily' else pda.pdas(*space)
     else:
@@ -333,6 +343,7 @@ def plan(tier, seed):
     add('nfa', ['epsheavy', 4, 4], 1, d, 32, 16 if q else 2)
     add('nfa', ['epsheavy', 4, 4], 1, 1, 32, 16 if q else 2, opt=['z', 'ε'])
     add('nfa', ['epsheavy', 3, 5], 1, d, 16, 4 if q else 1)
+    add('nfa', ['nfa4', 4], 1, 1, 32, 16 if q else 2)
     add('pda', [1, 1, 1, 3], 3, d, 1)
     add('pda', [2, 1, 1, 2], 3, d, 8)
     add('pda', [2, 1, 1, 3], 3, 1, 32, 8 if q else 1)
@@ -341,7 +352,7 @@ def plan(tier, seed):
     add('pda', [2, 1, 2, 2], 2, 1, 8, 2 if q else 1)
     add('cfg', [4 if q else 5], 4, 1, 32)
     return {'tasks': tasks,
-            'bounds': {'spaces': 'DFA(n<=2,k<=2), DFA(3,1) x accepted words <= 4, DFA(3,2){}; NFA(1,1), NFA(2,1) all, NFA(2,2,{}), NFA(3,1,<=4){}, eps-chains 4..5, 4-state and 3-state epsilon-heavy families{} x words <= 1..3; PDA(1,1,1,<=3), PDA(2,1,1,<=2), PDA(2,1,1,3){}, PDA(2,2,1,<=2){}, PDA(2,1,2,<=2), push family (3 states, two push moves with different symbols into one state, 26 244 automata, stride 1/2 in quick) x words <= 3 at closure limit {}; CNF(3) with <= {} rules x generated words 1..4 x leftmost/rightmost/any'.format(
+            'bounds': {'spaces': 'DFA(n<=2,k<=2), DFA(3,1) x accepted words <= 4, DFA(3,2){}; NFA(1,1), NFA(2,1) all, NFA(2,2,{}), NFA(3,1,<=4){}, eps-chains 4..5, 4-state and 3-state epsilon-heavy families{}, NFA(4,1,4) with q0=s0,|F|=1 (stride) x words <= 1..3; PDA(1,1,1,<=3), PDA(2,1,1,<=2), PDA(2,1,1,3){}, PDA(2,2,1,<=2){}, PDA(2,1,2,<=2), push family (3 states, two push moves with different symbols into one state, 26 244 automata, stride 1/2 in quick) x words <= 3 at closure limit {}; CNF(3) with <= {} rules x generated words 1..4 x leftmost/rightmost/any'.format(
                 ' stride 1/4' if q else '', '<=4' if q else 'all', ' stride 1/4' if q else '', ' stride 1/16' if q else ' stride 1/2', ' stride 1/8' if q else '', ' stride 1/4' if q else '', PDA_LIMIT, 4 if q else 5),
                        'deviations': d},
             'exhaustive': True,
